@@ -17,7 +17,7 @@ import (
 // base/extension split by 300): values with <=2 (PCR base) / <=3 (PTS) bits set and their
 // complements exercise every shift, mask edge and byte boundary; all 300 extensions cover the split.
 
-// sparse returns all w-bit values with at most k bits set, their complements and two alternating
+// sparse returns all w-bit values with at most k bits set, every contiguous run of ones, their complements and two alternating
 // patterns; thorough adds a stride sweep.
 func sparse(w, k int, stride uint64) []uint64 {
 	mask := uint64(1)<<uint(w) - 1
@@ -34,6 +34,14 @@ func sparse(w, k int, stride uint64) []uint64 {
 		}
 	}
 	rec(0, k, 0)
+	// every contiguous run of ones (carry chains, byte lanes) and its complement
+	for i := 0; i < w; i++ {
+		for j := i; j < w; j++ {
+			v := (uint64(1)<<uint(j-i+1) - 1) << uint(i)
+			set[v] = struct{}{}
+			set[^v&mask] = struct{}{}
+		}
+	}
 	if stride > 0 {
 		for v := uint64(0); v <= mask; v += stride {
 			set[v] = struct{}{}
